@@ -14,7 +14,7 @@ def run(ctx):
         {"scens": two, "policies": wcat.POL_WIDE, "bound": 1, "cap": 60000},
         # one deviation, including the "long preemption" (the default actor is descheduled until nothing else can run), under
         # process-priority policies as well; two deviations under FIFO in the thorough tier
-        {"scens": two, "policies": ("FIFO", "LIFO", "JOBS") + wcat.POL_PROC, "bound": 1, "demote": True, "cap": 60000},
+        {"scens": two, "policies": ("FIFO", "LIFO", "JOBS") + wcat.POL_PROC + wcat.POL_EAGER, "bound": 1, "demote": True, "cap": 60000},
         *([] if q else [{"scens": two, "policies": ("FIFO",), "bound": 2, "cap": 600000},
                         # two long preemptions (and nothing else) around every process-priority policy
                         {"scens": two, "policies": ("FIFO", "LIFO") + wcat.POL_PROC, "bound": 2, "demote": "only", "cap": 200000}]),
